@@ -222,6 +222,7 @@ func (l *listener) port() int { return l.l.Addr().(*net.TCPAddr).Port }
 
 type svcX struct {
 	Trusted bool   `json:"trusted"`
+	Paired  bool   `json:"paired"` // what the hub answers a connection that asks whether the service is paired
 	Dstate  string `json:"dstate"`
 	Derr    bool   `json:"derr"`
 	Reg     int    `json:"reg"`
@@ -244,6 +245,7 @@ type actT struct {
 	C   bool     `json:"c,omitempty"`
 	B   bool     `json:"b,omitempty"`
 	Vis []string `json:"vis,omitempty"`
+	Ra  bool     `json:"ra,omitempty"` // ReportMdns: the visible services announce register=true (their own auto accept)
 }
 type stepT struct {
 	A actT  `json:"a"`
@@ -365,7 +367,7 @@ func runOnce(b *behT, respell bool, seed int) (runObs, string) {
 		case "ReportMdns":
 			entries := map[string]*api.MdnsEntry{}
 			for _, k := range a.Vis {
-				entries[skiOf[k]] = &api.MdnsEntry{Name: k, Ski: skiOf[k], Identifier: k, Path: "/ship/", Register: false,
+				entries[skiOf[k]] = &api.MdnsEntry{Name: k, Ski: skiOf[k], Identifier: k, Path: "/ship/", Register: a.Ra,
 					Host: "", Port: lst[k].port(), Addresses: []net.IP{net.ParseIP("127.0.0.1")}}
 			}
 			h.ReportMdnsEntries(entries, true)
@@ -418,7 +420,7 @@ func runOnce(b *behT, respell bool, seed int) (runObs, string) {
 		for k, ski := range skiOf {
 			s := h.ServiceForSKI(ski)
 			d := s.ConnectionStateDetail()
-			x := svcX{Trusted: s.Trusted(), Dstate: csNames[d.State()], Derr: d.Error() != nil, Cnt: -1}
+			x := svcX{Trusted: s.Trusted(), Paired: h.IsRemoteServiceForSKIPaired(skiOf[k]), Dstate: csNames[d.State()], Derr: d.Error() != nil, Cnt: -1}
 			if c, ok := reg[ski]; ok {
 				for j, fc := range conns {
 					if api.ShipConnectionInterface(fc) == c {
